@@ -331,17 +331,21 @@ theorem applyPlan_frame (t : Tree) (p : Plan) (q : Path) (h : planned p q = fals
     exact ⟨by simpa using this.1, by simpa using this.2⟩
   have hc := contentPhase_frame p.hunks q (sortedFiles p.hunks) t hfiles
   unfold applyPlan
-  cases hcp : contentPhase p.hunks t (sortedFiles p.hunks) with
-  | mk o t1 =>
-    rw [hcp] at hc
-    have hrp := renamePhase_frame q (sortRens p.rens) t1 [] (by intro pr hm; cases hm) hrens
-    cases o <;> simp only <;> try exact hc
-    -- outcome ok: rename phase then backup step
-    split
-    · unfold backupPhase
+  by_cases hpf : preflightOk t p.rens = true
+  · simp only [hpf, Bool.not_true, Bool.false_eq_true, if_false]
+    cases hcp : contentPhase p.hunks t (sortedFiles p.hunks) with
+    | mk o t1 =>
+      rw [hcp] at hc
+      have hrp := renamePhase_frame q (sortRens p.rens) t1 [] (by intro pr hm; cases hm) hrens
+      cases o <;> simp only <;> try exact hc
+      -- outcome ok: rename phase then backup step
       split
+      · unfold backupPhase
+        split
+        · rw [hrp]; exact hc
+        · simp only; rw [hrp]; exact hc
       · rw [hrp]; exact hc
-      · simp only; rw [hrp]; exact hc
-    · rw [hrp]; exact hc
+  · have hpf' : preflightOk t p.rens = false := by simpa using hpf
+    simp [hpf']
 
 end ApplyFrame
